@@ -139,6 +139,36 @@ def h_composite(ctx, cfg):
     ctx.prove(ctx.eq(par.freq_response(w) * Dg, Ng), "parallel-response-is-the-sum", "after del par[0]")
 
 
+def h_composite_containers(ctx, cfg):
+  """Cascade / parallel responses over a container holding two DIFFERENT frequencies, including one-shot containers
+  (generator, Stream): element i is the product / sum of the section responses at frequency i."""
+  from audiolazy import CascadeFilter, ParallelFilter, Stream
+  trig, w, P, Q = _setup(ctx)
+  v = trig.angle("v")
+  with P, Q:
+    f, fb, fa = _mk(ctx, "f", *cfg["f"]); g, gb, ga = _mk(ctx, "g", *cfg["g"])
+    pts = []
+    for ang in (w, v):
+      zi = _zinv(ctx, trig, ang)
+      Nf, Df, Ng, Dg = _polyval(fb, zi), _polyval(fa, zi), _polyval(gb, zi), _polyval(ga, zi)
+      for Dx in (Df, Dg):
+        if (bool(ctx.eq(Dx, 0)) if ctx.mode == "sym" else abs(Dx) < 1e-9): ctx.exclude("denominator vanishes")
+      pts.append((Nf, Df, Ng, Dg))
+    kind = cfg["kind"]
+    mk = {"list": lambda: [w, v], "tuple": lambda: (w, v), "gen": lambda: (a for a in [w, v]), "stream": lambda: Stream([w, v]),
+          "iter": lambda: iter([w, v])}[kind]
+    for name, filt, comb in (("cascade", CascadeFilter(f, g), lambda Nf, Df, Ng, Dg: (Nf * Ng, Df * Dg)),
+                             ("parallel", ParallelFilter(f, g), lambda Nf, Df, Ng, Dg: (Nf * Dg + Ng * Df, Df * Dg))):
+      res = filt.freq_response(mk())
+      if kind in ("list", "tuple"):
+        ctx.prove(type(res) is type(mk()), "container-kind-preserved", "%s: %s" % (name, type(res).__name__))
+      got = list(res)
+      ctx.prove(len(got) == 2, name + "-response-over-containers", "%d values for 2 frequencies (%s)" % (len(got), kind))
+      for i, (pt, h) in enumerate(zip(pts, got)):
+        num, den = comb(*pt)
+        ctx.prove(ctx.eq(h * den, num), name + "-response-over-containers", "frequency %d of a %s" % (i, kind))
+
+
 def h_dft(ctx, cfg):
   from audiolazy import ZFilter
   from audiolazy.lazy_analysis import dft
@@ -207,6 +237,8 @@ def tasks(tier, seed):
               ((((2, 2), (2, 2)), ((3, 1), (1, 3))) if big else ()):
     T.append(("h_composite", {"f": f, "g": g}))
   T.append(("h_composite", {"f": (2, 1), "g": (1, 2), "at": "pi"}))
+  for kind in ("list", "tuple", "gen", "stream", "iter"):
+    T.append(("h_composite_containers", {"f": (2, 1), "g": (1, 2), "kind": kind}))
   for n in ((0, 1, 2, 3) if not big else (0, 1, 2, 3, 5)):
     T.append(("h_dft", {"n": n}))
     if n in (2, 3): T.append(("h_dft", {"n": n, "at": "pi"}))
